@@ -119,8 +119,13 @@ def c01(rep, env):
         MI.check_plumbing(rep, fb)
         MI.check_exports(rep, fb)
         # decrypting by rewinding the same object: the counter state must start at block 0 and seek exactly
-        only(rep, lambda r: SM.check_ctr_layout(r, fb), pre("ctr.from-nonce.zero"))
+        only(rep, lambda r: SM.check_ctr_layout(r, fb), pre("ctr.from-nonce.zero", "ctr.resume"))
         only(rep, lambda r: SM.check_ctr_remaining(r, fb), pre("pos."))
+        # decrypting in instalments, the state exported after one and imported before the next: the
+        # import must restore exactly the exported state
+        only(rep, lambda r: BM.check_export(r, fb), pre("ivstate.resume"))
+        only(rep, lambda r: SM.check_belt(r, fb, parts=("export",)), pre("ivstate.resume"))
+        BC.check_state(rep, fb)
     per_config(rep, env, f)
 
 
